@@ -179,28 +179,42 @@ def check(fam, tier, seed, replay=None):
                 cases += extra
                 recs.update({k: v for k, v in recs2.items() if k not in recs})
 
-    # thorough tier of the concurrent families: the same cases once more under the Go race detector
+    # concurrent families: cases once more under the Go race detector (a few in the quick tier, more in thorough)
     race = None
-    if tier == "thorough" and getattr(fam, "race", False) and not infra and not replay:
-        ok, log = core.build_race_harness()
+    if getattr(fam, "race", False) and not infra and not replay:
+        ok = st.get("race_ok") and os.path.exists(core.RACE_HARNESS)
         if not ok:
-            infra.append("the harness does not build with -race: " + log[-300:])
-        else:
-            sub = cases[:getattr(fam, "race_cases", 60)]
+            ok, log = core.build_race_harness()
+            if not ok:
+                infra.append("the harness does not build with -race: " + log[-300:])
+        if ok:
+            nrace = getattr(fam, "race_cases", 60) if tier == "thorough" else getattr(fam, "race_quick", 6)
+            sub = fam.race_select(cases, tier) if hasattr(fam, "race_select") else [c for c in cases if c.get("pre_obs") is None][:nrace]
             racy = []
             for c in sub:
-                o, rc_, err_ = core.run_lines([core.RACE_HARNESS] + list(fam.modes_for(c)[0]), [fam.harness_line(c)], timeout=600)
+                o, rc_, err_ = core.run_lines([core.RACE_HARNESS] + list(fam.modes_for(c)[0]), [fam.harness_line(c)], timeout=300)
                 if "DATA RACE" in err_ or rc_ == 66:
-                    racy.append(c)
-                    if len(racy) >= 3:
+                    racy.append((c, err_))
+                    if len(racy) >= 2:
                         break
             race = {"cases": len(sub), "data_races": len(racy)}
+            for c, err_ in racy[:1]:
+                # a data race on a case of the property's own generator is a concrete failing run
+                where = [l.strip() for l in err_.splitlines() if l.strip().startswith(("github.com/metal-toolbox", "main."))][:6]
+                path = core.write_replay(prop, "schedule", {"case": {k2: v for k2, v in c.items() if k2 != "id"}, "race_detector": True,
+                                         "report": err_[-1800:], "frames": where, "seed": seed, "tier": tier, "family": type(fam).__name__,
+                                         "how": "work/verifharness-race " + " ".join(fam.modes_for(c)[0]) + "  <<<  " + fam.harness_line(c)[:300]})
+                race["replay"] = path
+                race_lines = ["VIOLATION property=%s replay=%s" % (prop, path)]
             if racy:
-                problems.append("the Go race detector reports a data race on %d case(s); first: %s" % (len(racy), json.dumps(fam.sample(racy[0]))[:300]))
+                problems.append("the Go race detector reports a data race on %d case(s); first: %s" % (len(racy), json.dumps(fam.sample(racy[0][0]))[:300]))
 
     # report
     lines = []
     nviol = 0
+    if race and race.get("replay"):
+        lines.append("VIOLATION property=%s replay=%s" % (prop, race["replay"]))
+        nviol += 1
     seen_known = set()
     reported = set()
     for c in viol:
